@@ -311,6 +311,66 @@ def _gen_family(rng):
     return out
 
 
+HIST_NS = ["http://e/", "http://other/e/", "http://e/ns/", "http://e/dt#", "urn:x:"]
+HIST_PFX = ["ex", "n", "dt", "p2", "xsd", "schema"]
+
+
+def _gen_hist(rng):
+    """[op…]; op = ["rt"] | ["bind", prefix, namespace, override, replace] | ["second", prefix, namespace] (a second
+    NamespaceManager on the same graph binds, with replace=True; later round trips go through BOTH managers)"""
+    ops = [["rt"]]
+    for _ in range(rng.choice([1, 2, 2, 3, 4])):
+        if rng.random() < 0.2:
+            ops.append(["second", rng.choice(HIST_PFX[:3]), rng.choice(HIST_NS)])
+        else:
+            ops.append(["bind", rng.choice(HIST_PFX), rng.choice(HIST_NS), rng.random() < 0.8, rng.random() < 0.7])
+        ops.append(["rt"])
+    return ops
+
+
+def _hist_terms(ts):
+    """IRIs and literals with a datatype in every namespace of the histories, plus the case's own IRIs / datatyped literals"""
+    out = []
+    for ns in HIST_NS:
+        out += [URIRef(ns + "thing"), Literal("5", datatype=URIRef(ns + "metres"))]
+    out += [t for t in ts if isinstance(t, URIRef) or (isinstance(t, Literal) and t.datatype is not None)][:3]
+    # (a literal whose text `_literal_n3` respells is finding K5, observed by the other text oracles: not part of this stream)
+    return [t for t in out if _text_in_scope(t) and (not isinstance(t, URIRef) or not any(c in str(t) for c in INVALID))
+            and not (isinstance(t, Literal) and _respelt(t))]
+
+
+def _hist_run(case, ts):
+    """replays the history with a fresh graph; one record per (round trip, manager, term):
+    (step, which manager, term, text written or exception, bindings at that moment, what from_n3 read or exception)"""
+    from rdflib.namespace import NamespaceManager
+    g = Graph()
+    managers = [("first", g.namespace_manager)]
+    g.namespace_manager.bind("ex", HIST_NS[0])
+    g.namespace_manager.bind("n", HIST_NS[2])
+    terms = _hist_terms(ts)
+    out = []
+    old = rdflib.NORMALIZE_LITERALS
+    rdflib.NORMALIZE_LITERALS = False
+    try:
+        for n, op in enumerate(case.get("hist") or []):
+            if op[0] == "bind":
+                _try(lambda: managers[0][1].bind(op[1], op[2], override=op[3], replace=op[4]))
+            elif op[0] == "second":
+                if len(managers) == 1:
+                    managers.append(("second", NamespaceManager(g)))
+                _try(lambda: managers[1][1].bind(op[1], op[2], replace=True))
+            else:
+                for name, m in managers:
+                    tbl = [(p, str(ns)) for p, ns in m.namespaces()]
+                    for t in terms:
+                        text = _try(lambda: t.n3(m))
+                        back = text if isinstance(text, Exception) else _try(lambda: from_n3(text, nsm=m))
+                        out.append((n, name, t, text, tbl, back))
+    finally:
+        rdflib.NORMALIZE_LITERALS = old
+    return out
+
+
 ENVS = ["nonorm", "dawg", "bind"]
 
 
@@ -343,6 +403,10 @@ def gen_case(rng, tier, i):
     case = {"terms": terms, "p1": p1, "p2": p2, "nsm": rng.choice(["custom", "rebind", "only"]),
             "delims": [[rng.randrange(len(DELIMS)), rng.random() < 0.35] for _ in range(3 if thorough else 2)],
             "par": 7 if thorough else 2}
+    # histories of ONE namespace manager: bind / re-bind with replace / override / a second manager on the same store,
+    # a write-and-read round trip of the terms after every step (what was read before must not be remembered)
+    if rng.random() < (0.25 if thorough else 0.18):
+        case["hist"] = _gen_hist(rng)
     # process-level state (surface audit): the module flags and a datatype registered with term.bind()
     if rng.random() < (0.30 if thorough else 0.12):
         case["env"] = rng.choice(ENVS)
@@ -1188,6 +1252,18 @@ def run_impl(case):
         elif k == "bnode" and _label_ok(s):
             check("turtle", _try(lambda: _turtle(text)), relabel=True)
 
+    # ---------------- histories of a namespace manager: every round trip after every step gives the term back
+    if case.get("hist"):
+        for n, name, t, text, tbl, back in _hist_run(case, ts):
+            stats["hist_roundtrips"] = stats.get("hist_roundtrips", 0) + 1
+            stats["hist_prefixed"] = stats.get("hist_prefixed", 0) + int(not isinstance(text, Exception) and "<" not in text.split('"')[-1])
+            want = URIRef(str(t)) if isinstance(t, URIRef) else t
+            if isinstance(text, Exception) or isinstance(back, Exception):
+                ex = text if isinstance(text, Exception) else back
+                V("n3-nsm-hist", f"after step {n} of {case['hist']!r} ({name} manager): {t!r} written / read raised {type(ex).__name__}: {str(ex)[:60]}")
+            elif not _same(back, want, exact_lang=False):
+                V("n3-nsm-hist", f"after step {n} of {case['hist']!r} ({name} manager): {t!r} written {text!r} read back as {back!r}")
+
     # ---------------- observations compared with the Lean model
     for st in _steps(case, ts):
         o = _impl_obs(st, case, ts)
@@ -1271,6 +1347,8 @@ def _steps(case, ts):
             st.append(("vcmp", i, j))
     st.append(("vsort", [i for i in case["p1"] if i in live and isinstance(ts[i], Literal)]))
     st.append(("msort", [i for i in case["p1"] if i in live]))     # the whole mixed list, literals with their values
+    if case.get("hist"):
+        st.append(("hist",))
     return st
 
 
@@ -1452,12 +1530,25 @@ def _impl_obs(st, case, ts):
         if not _vsort_modelled(l):
             return "vsort -"
         return "vsort " + " ; ".join(enc(x) for x in sorted(l))
+    if kind == "hist":
+        return "hist " + " | ".join("exc" if isinstance(b, Exception) else enc(b, True) for b in _hist_reads(case, ts)[1])
     if kind == "msort":
         l = [ts[i] for i in st[1]]
         if not _msort_modelled(l):
             return "msort -"
         return "msort " + " ; ".join(enc(x) for x in sorted(l))
     raise AssertionError(kind)
+
+
+def _hist_reads(case, ts):
+    """the round trips of a history the model reader is asked about: (driver lines, what rdflib read)"""
+    lines, reads = [], []
+    for n, name, t, text, tbl, back in _hist_run(case, ts):
+        if isinstance(text, Exception) or not _scalar(text) or not all(_scalar(p) and _scalar(ns) for p, ns in tbl):
+            continue
+        lines.append("rdq 0 " + _cps(text) + "".join(" %s %s" % (_cps(p), _cps(ns)) for p, ns in tbl))
+        reads.append(back)
+    return lines[:40], reads[:40]
 
 
 def _msort_modelled(l):
@@ -1535,6 +1626,8 @@ def model_lines(case):
             l = [ts[i] for i in st[1]]
             lines.append("msort " + " ".join("W " + _venc(x) if isinstance(x, Literal) else enc(x) for x in l)
                          if _msort_modelled(l) else "skip")
+        elif kind == "hist":     # the last step: one driver line per round trip of the history
+            lines += _hist_reads(case, ts)[0]
     return lines
 
 
@@ -1548,8 +1641,15 @@ def select_model_obs(case, out):
     the obligation is that rdflib reads the model's text as the term, not that the texts are equal."""
     ts = _build_all(case)
     res = []
-    for st, o in zip(_steps(case, ts), out):
+    steps = _steps(case, ts)
+    if steps and steps[-1][0] == "hist":
+        k = len(steps) - 1
+        out = list(out[:k]) + ["hist " + " | ".join(_fold_lang(x) for x in out[k:])]
+    for st, o in zip(steps, out):
         kind = st[0]
+        if kind == "hist":
+            res.append(o)
+            continue
         if kind == "cmp":
             res.append(o)
         elif kind == "n3":
